@@ -18,7 +18,9 @@ DUST = F(1, 10 ** 9)
 
 def probes_on(model, r, names, stats, report):
     from wsimod.arcs import arcs as A
-    for arc in list(model.arcs.values()):
+    arcs = list(model.arcs.values())
+    r.shuffle(arcs)          # (in creation order the probes over upstream arcs would drain what the later ones ask for)
+    for arc in arcs:
         kind = type(arc).__name__
         src, dst = type(arc.in_port).__name__, type(arc.out_port).__name__
         for direction in ("pull", "push"):
@@ -32,6 +34,7 @@ def probes_on(model, r, names, stats, report):
                         s0 = declared_stock(store_end, names) if watch else None
                         rec0 = MN.cvec(arc.vqip_in, names) if watch else None
                         if direction == "pull":
+                            lk0 = leak_books(arc.in_port)
                             X = frac(arc.send_pull_check()["volume"])
                             y = r.choice([X / 2, X, X * 2 + 1, F(1, 3)])
                             if kind in ("QueueArc", "DecayArc", "AltQueueArc", "DecayArcAlt") and arc.queue:
@@ -81,13 +84,33 @@ def probes_on(model, r, names, stats, report):
                     what = (f"pull check over {kind} {src}->{dst} offered {X}, a request for {y} returned {got} (expected {want})" if direction == "pull"
                             else f"push check over {kind} {src}->{dst} reported room for {X}, a push of {y} left {got} unplaced (expected {want})")
                     sig = (direction, kind, src, dst)
-                    leak = getattr(arc.in_port, "leakage", 0) if direction == "pull" else 0
-                    if leak and frac(leak) > 0 and want < got <= want / (1 - frac(leak)) + DUST:
-                        # recorded known finding, by mechanism: a Distribution with leakage pulled request / (1 - leakage)
-                        # from upstream and the leaked part was not (fully) taken by groundwater: it is handed to the
-                        # consumer on top of what was asked for
+                    if direction == "pull" and leak_bounced(arc.in_port, lk0, y, got, want):
                         sig = sig + ("leak-bounced",)
                     report(what, sig, "C07")
+                if direction == "pull" and got > y + DUST:
+                    sig = (direction, kind, src, dst) + (("leak-bounced",) if leak_bounced(arc.in_port, lk0, y, got, min(y, X)) else ("over-asked",))
+                    report(f"a pull of {y} over {kind} {src}->{dst} returned {got}: more than was asked", sig, "C18")
+
+
+def leak_books(node):
+    """(drawn from upstream, sent on to groundwater) so far in this timestep, for a Distribution with leakage"""
+    if not getattr(node, "leakage", 0):
+        return None
+    drawn = sum(frac(a.vqip_in["volume"]) for a in node.in_arcs.values())
+    leaked = sum(frac(a.vqip_in["volume"]) for a in node.out_arcs.values() if type(a.out_port).__name__ == "Groundwater")
+    return drawn, leaked
+
+
+def leak_bounced(node, before, asked, got, want):
+    """the recorded known finding, by mechanism: a Distribution with leakage drew no more than request / (1 - leakage) from
+    upstream, groundwater did not take all of the leaked share of that, and the consumer was handed exactly the rest on top"""
+    if before is None:
+        return False
+    now = leak_books(node)
+    l = frac(node.leakage)
+    drawn, leaked = now[0] - before[0], now[1] - before[1]
+    refused = l * drawn - leaked
+    return drawn <= asked / (1 - l) + DUST and refused > DUST and abs((got - want) - refused) <= DUST and got > want
 
 
 STORE_CLASSES = ("Reservoir", "Storage", "Groundwater", "QueueGroundwater")   # (by __qualname__: a RiverReservoir, which passes spill on, calls itself "Reservoir")
